@@ -18,6 +18,7 @@ import (
 	"sort"
 	"strings"
 	realsync "sync"
+	"time"
 
 	"github.com/EdgeCast/vflow/ipfix"
 	netflow5 "github.com/EdgeCast/vflow/netflow/v5"
@@ -69,6 +70,7 @@ type pipeCfg struct {
 	mqCap   int
 	cache   string
 	filter  []uint32
+	mirror  int // >0: mirroring enabled towards 127.0.0.1:<mirror>
 }
 
 // resetPipe re-creates every package-level object of one pipeline and the options.
@@ -82,6 +84,10 @@ func resetPipe(c pipeCfg) proto {
 	o.SFlowEnabled, o.IPFIXEnabled, o.NetflowV5Enabled, o.NetflowV9Enabled = false, false, false, false
 	o.IPFIXTplCacheFile = filepath.Join(pipeTmpGet(), "unused-ipfix.cache")
 	o.NetflowV9TplCacheFile = filepath.Join(pipeTmpGet(), "unused-v9.cache")
+	if c.mirror > 0 {
+		o.IPFIXMirrorAddr, o.IPFIXMirrorPort, o.IPFIXMirrorWorkers = "127.0.0.1", c.mirror, 1
+		o.SFlowMirrorAddr, o.SFlowMirrorPort, o.SFlowMirrorWorkers = "127.0.0.1", c.mirror, 1
+	}
 	opts = o
 	switch c.proto {
 	case ppIPFIX:
@@ -361,16 +367,53 @@ type pipeRun struct {
 	cache   string
 	filter  []uint32
 	inband  bool // expectation depends on the order in which template and data are processed
+	mirror  bool
 }
 
 type pipeObs struct {
 	udp, decoded uint64
 	published    []string
+	mirrored     []string
+}
+
+var (
+	mirrorLsn  *net.UDPConn
+	mirrorPort int
+)
+
+// mirrorListener: one real UDP socket per worker process standing in for the third-party collector.
+func mirrorListener() int {
+	if mirrorLsn == nil {
+		l, err := net.ListenUDP("udp4", &net.UDPAddr{IP: net.IPv4(127, 0, 0, 1), Port: 0})
+		if err != nil {
+			panic(err)
+		}
+		mirrorLsn, mirrorPort = l, l.LocalAddr().(*net.UDPAddr).Port
+	}
+	return mirrorPort
+}
+
+func drainMirror() []string {
+	var out []string
+	buf := make([]byte, 65536)
+	for {
+		mirrorLsn.SetReadDeadline(time.Now().Add(300 * time.Microsecond))
+		n, from, err := mirrorLsn.ReadFromUDP(buf)
+		if err != nil {
+			return out
+		}
+		out = append(out, from.IP.String()+"|"+string(buf[:n]))
+	}
 }
 
 // runPipe is the body of thread 0: start the real run(), deliver, wait for quiescence, observe.
 func runPipe(r *pipeRun, out *pipeObs, mu *realsync.Mutex) {
-	pr := resetPipe(pipeCfg{proto: r.proto, workers: r.workers, udpCap: 1000, mqCap: 1000, cache: r.cache, filter: r.filter})
+	cfg := pipeCfg{proto: r.proto, workers: r.workers, udpCap: 1000, mqCap: 1000, cache: r.cache, filter: r.filter}
+	if r.mirror {
+		cfg.mirror = mirrorListener()
+		drainMirror()
+	}
+	pr := resetPipe(cfg)
 	sched.GoNamed("run", pr.run)
 	port := pipePort(r.proto)
 	sched.WaitCond(func() bool { return venv.Conn(port) != nil }, "listening")
@@ -389,6 +432,10 @@ func runPipe(r *pipeRun, out *pipeObs, mu *realsync.Mutex) {
 		o.published = append(o.published, normPayload(r.proto, <-mq))
 	}
 	sort.Strings(o.published)
+	if r.mirror {
+		o.mirrored = drainMirror()
+		sort.Strings(o.mirrored)
+	}
 	mu.Lock()
 	*out = o
 	mu.Unlock()
@@ -433,6 +480,23 @@ func checkPipe(r *pipeRun, e pipeExp, o pipeObs) (string, string) {
 				return name + ":publish:content", fmt.Sprintf("published message differs from the standalone decode of its datagram:\n got  %s\n want %s", o.published[i], e.payloads[i])
 			}
 		}
+		return "", ""
+	}
+	if r.mirror {
+		// what reached the third party: a sub-multiset of the datagrams received (mirroring starts once
+		// the dispatcher has switched it on), each byte-identical and from its exporter's address
+		want := map[string]int{}
+		for _, d := range r.seq {
+			want[d.ip.String()+"|"+string(d.wire)]++
+		}
+		for _, m := range o.mirrored {
+			if want[m] == 0 {
+				return name + ":mirror:foreign-or-duplicate", fmt.Sprintf("the third party received a datagram that was not sent (or twice): %d octets from %s", len(m)-strings.Index(m, "|")-1, m[:strings.Index(m, "|")])
+			}
+			want[m]--
+		}
+	}
+	if r.mirror || !r.inband {
 		return "", ""
 	}
 	// in-band template: the data datagram is published iff it was decoded after the template
@@ -519,7 +583,7 @@ func explorePipe(c *mck.Ctx, it pipeItem, body func(out *pipeObs, mu *realsync.M
 			d["virtual_ns"] = r.VirtualNs
 			c.Violation(sig, msg, d)
 		}
-		outcomes[fmt.Sprintf("udp=%d dec=%d pub=%d %s", o.udp, o.decoded, len(o.published), sig)]++
+		outcomes[fmt.Sprintf("udp=%d dec=%d pub=%d mirrored=%d %s", o.udp, o.decoded, len(o.published), len(o.mirrored), sig)]++
 	}
 	bodyFn := func() { body(&obs, &mu) }
 	// determinism gate
@@ -930,7 +994,28 @@ func c15Space(tier string) mck.Space {
 	}}
 }
 
+// C16 (scheduler part): the ipfix and sflow pipelines with mirroring switched on.
+func c16Items(tier string) []pipeItem {
+	var out []pipeItem
+	b := 1
+	if tier == "thorough" {
+		b = 2
+	}
+	for _, p := range []int{ppIPFIX, ppSFlow} {
+		al := alphabet(p)
+		cache := ""
+		if p == ppIPFIX {
+			cache = preloadCache(false)
+		}
+		for _, w := range []int{1, 2} {
+			out = append(out, pipeItem{"mirroring on", pipeRun{proto: p, workers: w, seq: seqOf(al, "dataA-long", "dataB-short", "dataA-mid"), cache: cache, mirror: true}, b})
+		}
+	}
+	return out
+}
+
 var pipeSpaces = map[string]func(string) mck.Space{
+	"pipe.c16": pipeSpace(c16Items, 4),
 	"pipe.c15": c15Space,
 	"pipe.c12": pipeSpace(c12Items, 2),
 	"pipe.c13": pipeSpace(c13Items, 1),
